@@ -101,10 +101,12 @@ type Resp struct {
 	Client string `json:"client"`
 	Status int    `json:"status"`
 	Body   []byte `json:"body,omitempty"`
-	Err    string `json:"err,omitempty"`
-	Invoke uint64 `json:"invoke"`
-	Return uint64 `json:"return"`
-	Done   bool   `json:"done"`
+	// BodyLen is set when the answer was longer than the transport cap (64 MB): Body then holds its first MB only.
+	BodyLen int    `json:"body_len,omitempty"`
+	Err     string `json:"err,omitempty"`
+	Invoke  uint64 `json:"invoke"`
+	Return  uint64 `json:"return"`
+	Done    bool   `json:"done"`
 	// Store-level results
 	Keys   []string `json:"keys,omitempty"`
 	Values [][]byte `json:"values,omitempty"`
